@@ -23,6 +23,10 @@ type KFEntry struct {
 	Description string   `json:"description"`
 	Minimal     string   `json:"minimal_replay,omitempty"`
 	FixCommit   string   `json:"fix_commit,omitempty"`
+	FixedLine   string   `json:"fixed_line,omitempty"`
+	// Expand: the violation is produced by the oracle's own observation on an otherwise healthy state, so the
+	// state is still expanded (keeps the exploration behind it from becoming vacuous).
+	Expand bool `json:"expand,omitempty"`
 }
 
 type kfNote struct {
@@ -92,6 +96,15 @@ func (kf *KnownFindings) Match(prop string, v *Violation, hist []Op, cfg Cfg) st
 		}
 	}
 	return ""
+}
+
+func (kf *KnownFindings) ExpandOK(id string) bool {
+	for _, e := range kf.Entries {
+		if e.ID == id {
+			return e.Expand
+		}
+	}
+	return false
 }
 
 func (kf *KnownFindings) Note(id string, s *Spec, hist []Op, v *Violation) {
